@@ -160,7 +160,7 @@ def grid_case(i, variant=0):
     return c
 
 
-SEQ_FAULTS = ["404", "500", "reset-pre", "reset-mid", "short", "wrong-short", "wrong-empty", "slow"]
+SEQ_FAULTS = ["404", "500", "reset-pre", "reset-mid", "short", "wrong-short", "wrong-empty", "slow", "stall"]
 SEQ_N = {"quick": [0, 1, 2, 9, 10, 11, 12], "thorough": list(range(13))}
 
 
@@ -293,7 +293,7 @@ def random_case(rng, tier="quick"):
         c["init"]["where"] = 0 if c["entry"] == "bundled" else rng.randrange(2)
     mode = w(["online", "offline", "no-base-url"], [10, 1, 1])
     n = rng.choice([0, 0, 1, 1, 2, 3, 5, 9, 10, 11, 12])
-    faults = [f for f in E.FAULTS if not (f.startswith("wrong") and fmt is None and not c["declared"]["uncomp"])]
+    faults = [f for f in E.FAULTS if not (f.startswith("wrong") and fmt is None and not c["declared"]["uncomp"]) and not (f == "stall" and n > 3)]  # a stall costs a read timeout of wall time
     few = rng.sample(faults, rng.randint(1, 3))
     script = [{"o": rng.choice(few), "f": round(rng.random(), 2)} for _ in range(n)]
     tail = {"o": "ok"} if rng.random() < 0.75 else {"o": rng.choice(few), "f": 0.5}
